@@ -160,7 +160,9 @@ def split_ranges(intsize, step, start, end):
         haslower = (start & mask) != 0
         hasupper = (end & mask) != mask
 
-        not_mask = ~mask & ((1 << intsize + 1) - 1)
+        # Python integers do not wrap around: when ``end - diff`` goes below
+        # zero, ``nextend`` stays negative and the test below ends the loop
+        not_mask = ~mask
         nextstart = (start + diff if haslower else start) & not_mask
         nextend = (end - diff if hasupper else end) & not_mask
 
